@@ -83,6 +83,16 @@ func resultValue(rs []Value) Value {
 }
 
 func (x *Exec) callStatic(f *Frame, st *State, ins ssa.Instruction, fn *ssa.Function, clo *Closure, args []Value) (Value, bool) {
+	if f.top && f.spec != nil {
+		// call-site assertions of the function under verification ("before callee: expr")
+		for _, c := range f.spec.Of("before") {
+			if c.Name == FuncName(fn) {
+				g := f.evalBool(c.Expr, st, f.entry)
+				x.oblige("before@"+FuncName(fn), c.Text, fmt.Sprintf("%s:%d", shortFile(c.File), c.Line), st, g)
+				f.beforeSeen++
+			}
+		}
+	}
 	if m := x.libModel(fn); m != nil {
 		x.curCallee = fn
 		return m.apply(f, st, ins, args)
